@@ -44,6 +44,7 @@ type eCase struct {
 	Prev    string     `json:"prev"`    // fresh | stale
 	Hold    string     `json:"hold"`    // name of the rule held at its gate ("" = none)
 	History []eHistOp  `json:"history"` // when present, the rule set is built by this sequence of builder operations (C04)
+	Again   bool       `json:"again"`   // make the same call once BEFORE the observed one, with the very same argument values (name list, layers): a call must not change its caller's arguments
 	Warm    bool       `json:"warm"`    // execute the entry point once on the same engine and builder BEFORE the last history operation
 	QuietMs int        `json:"quiet_ms"`
 }
@@ -331,6 +332,18 @@ func runEngineCase(c *eCase) eObs {
 		primeMap, _ = g.GetRulesResultMap()
 	}
 
+	if c.Again {
+		dc.Add("Gate", newGate(""))
+		func() {
+			defer func() { _ = recover() }()
+			_ = callEntry(g, rb, c, tag)
+		}()
+		tag.StopTag = c.Stop0
+		dc.Add("Gate", gt)
+		ob.mu.Lock()
+		ob.events = nil
+		ob.mu.Unlock()
+	}
 	type done struct {
 		err error
 		pan string
